@@ -56,6 +56,7 @@ def jobs(tier, seed):
            ('real-symmetric-3x2', dict(kind='symmetric', shape=[3, 2])),
            ('real-symmetric-3x1', dict(kind='symmetric', shape=[3, 1])),
            ('real-scalar', dict(kind='scalar', shape=[])),
+           ('real-broadcast', dict(kind='broadcast', shape=[2, 2])),
            ('integer-typed-witness', dict(kind='intwitness', shape=[])),
            ('geometric', dict(kind='geometric', shape=[1])),
            ('fp32-total', dict(kind='fp', shape=[32]))]
@@ -93,8 +94,39 @@ def _vars(prefix, shape):
     return sn.real_vars(prefix, tuple(shape))
 
 
+def broadcast(job, ex):
+    """terms of different shapes are broadcast: entry [i, j] of both outputs is, term for term, what the call on the three
+    scalars (v0[i, j], v1[i, 0], v2[i, 0]) returns; same for a scalar mixed with arrays"""
+    cases = [('(2,2)/(2,1)/(2,1)', [_vars('e0', (2, 2)), _vars('e1', (2, 1)), _vars('e2', (2, 1))]),
+             ('(2,)/scalar/(2,)', [_vars('e0', (2,)), sn.real_var('e1'), _vars('e2', (2,))]),
+             ('(2,1,2)/(1,2)/(2,)', [_vars('e0', (2, 1, 2)), _vars('e1', (1, 2)), _vars('e2', (2,))])]
+    for label, ins in cases:
+        def harness():
+            with tr.traced(), cm.quiet(), sn.abstract_division():
+                full = ex.dea3(*ins)
+                shp = np.broadcast_shapes(*[np.shape(a) for a in ins])
+                b = [np.broadcast_to(np.asarray(a, dtype=object), shp) for a in ins]
+                each = {idx: ex.dea3(b[0][idx], b[1][idx], b[2][idx]) for idx in np.ndindex(shp)}
+                return full, each, shp
+        p = sn.run_single(harness)
+        job.paths += 1
+        if p.exc is not None:
+            raise p.exc
+        (res, err), each, shp = p.result
+        info = dict(key='C13:broadcast-not-elementwise', kind='broadcast', case=label)
+        if not job.confirm('broadcast shape %s' % label, np.shape(res) == shp and np.shape(err) == shp):
+            job.violation('shape', dict(info, got=[list(np.shape(res)), list(np.shape(err))], want=list(shp)))
+            continue
+        for idx in np.ndindex(shp):
+            r1, e1 = each[idx]
+            job.prove('result%s is the scalar call [%s]' % (idx, label), sn.lift(np.asarray(res)[idx]) == sn.lift(cm.flat_list(r1)[0]), [], info)
+            job.prove('abserr%s is the scalar call [%s]' % (idx, label), sn.lift(np.asarray(err)[idx]) == sn.lift(cm.flat_list(e1)[0]), [], info)
+
+
 def run_job(job, kind, shape):
     ex = cm.nd_mods()['ex']
+    if kind == 'broadcast':
+        return broadcast(job, ex)
     if kind in ('structure', 'scalar'):
         if kind == 'scalar':
             ins = [sn.real_var('e%d' % k) for k in range(3)]
@@ -324,6 +356,22 @@ def replay(cex):
                 return True, ('dea3(%r, %r, %r) = %r with abserr %r; the terms are L + a q^k with L = %r (a=%r, q=%r)'
                               % (t0, t1, t2, r[0], e[0], Lx, av, qv))
         return False, 'dea3 recovers the limit on the model point and a 30-decade sweep'
+    if kind == 'broadcast':
+        rng = np.random.default_rng(4)
+        for trial in range(20):
+            v0 = rng.normal(size=(3, 4)) * 10.0 ** rng.integers(-3, 4, size=(3, 1))
+            v1 = rng.normal(size=(3, 1)) * 10.0 ** rng.integers(-3, 4, size=(3, 1))
+            v2 = v1.copy() if trial % 2 else rng.normal(size=(3, 1))
+            if trial % 3 == 0:
+                v0[:, 1:] = v1            # constant / equal terms: the fallback branch
+            with cm.quiet():
+                r, e = ex.dea3(v0, v1, v2)
+                for idx in np.ndindex(3, 4):
+                    rs, es = ex.dea3(v0[idx], v1[idx[0], 0], v2[idx[0], 0])
+                    if np.shape(r) != (3, 4) or r[idx] != rs[0] or e[idx] != es[0]:
+                        return True, ('dea3 on broadcast shapes (3,4),(3,1),(3,1): entry %s is (%r, %r), the call on the three scalars gives (%r, %r)'
+                                      % (idx, r[idx] if np.shape(r) == (3, 4) else None, e[idx] if np.shape(e) == (3, 4) else None, rs[0], es[0]))
+        return False, 'broadcast call equals the scalar calls'
     if kind == 'intwitness':
         bad = int_witness_failures(ex)
         return (True, bad[0]) if bad else (False, 'integer-typed inputs behave like floats')
